@@ -673,7 +673,16 @@ func c01RuleSet(r *rng) []c01Method {
 		}
 	}
 	// sometimes: families that share prefixes (precedence), or the implicit path of a method
-	switch r.intn(6) {
+	switch r.intn(7) {
+	case 5:
+		// one method with a verb-specific and a catch-all binding of one shape that name different fields: a request
+		// with the specific verb is bound through the specific rule
+		v := r.picks([]string{"GET", "POST", "LIST"})
+		bs := []c01Binding{{Verb: v, Tmpl: "/cc/{s1}/t"}, {Verb: "*", Tmpl: "/cc/{s2}/t"}}
+		if r.bool() {
+			bs[0], bs[1] = bs[1], bs[0]
+		}
+		ms = append(ms, c01Method{Svc: "S3", Name: "Two", Bindings: bs})
 	case 0:
 		ms = append(ms, c01Method{Svc: "S3", Name: "Lit", Bindings: []c01Binding{{Verb: "GET", Tmpl: "/aa/b/v1"}}},
 			c01Method{Svc: "S3", Name: "Var", Bindings: []c01Binding{{Verb: "GET", Tmpl: "/aa/{s1}/v1"}}},
